@@ -12,6 +12,11 @@ pub fn guarded<F: FnOnce() -> String>(f: F) -> String {
     }
 }
 
+/// like `guarded` for a computation that may have no result: a panic counts as no result
+pub fn guarded_opt<T, F: FnOnce() -> Option<T>>(f: F) -> Option<T> {
+    catch_unwind(AssertUnwindSafe(f)).unwrap_or(None)
+}
+
 /// code points "97.98.99" -> String
 pub fn cps_to_string(s: &str) -> String {
     if s.is_empty() { return String::new(); }
